@@ -10,7 +10,7 @@ use crate::front::{self, Out};
 use mqtt_ref::dec;
 use mqtt_ref::enc::{self, Form, Spell};
 use mqtt_ref::mutate;
-use mqtt_ref::{Ast, Family};
+use mqtt_ref::{gen, Ast, Family};
 use rayon::prelude::*;
 use serde_json::{json, Value};
 use std::sync::atomic::{AtomicU64, Ordering::Relaxed};
@@ -132,6 +132,20 @@ pub fn all_byte_universes2<F: Fam>(ctx: &Ctx, light: &(dyn Fn(&[u8]) + Sync), he
             n.fetch_add(k, Relaxed);
         });
         ctx.count(&format!("{}_frame_plus_suffix", F::NAME), n.load(Relaxed));
+    }
+    // CONNECT frames of the OTHER family (reference encodings of its U_small CONNECT values) and every truncation
+    // of them: the version gate sits in front of the body decoder in each front-end separately
+    {
+        let other = if fam == Family::V5 { Family::V3 } else { Family::V5 };
+        let n = AtomicU64::new(0);
+        let cs: Vec<Vec<u8>> = gen::values_of(other, mqtt_ref::ast::ptype::CONNECT, &gen::Scope::small()).iter().filter_map(|a| enc::encode_bytes(other, a)).collect();
+        cs.par_iter().for_each(|b| {
+            for k in 0..=b.len() {
+                light(&b[..k]);
+            }
+            n.fetch_add(b.len() as u64 + 1, Relaxed);
+        });
+        ctx.count(&format!("{}_other_family_connect_prefixes", F::NAME), n.load(Relaxed));
     }
     // the reference encodings of the value universes (U_val, U_size, U_field, U_thresh; frames < 100,000 bytes):
     // well-formed inputs with every field-value catalogue entry and every relation between fields (DESIGN 0.8)
@@ -483,7 +497,7 @@ fn c03_sub_universe<F: Fam>(ctx: &Ctx) {
 }
 
 pub fn c03(ctx: &Ctx) {
-    ctx.set_rule("all byte strings <= 3 (thorough 4) bytes; all complete frames with remaining length <= 2 (3) and all bodies over the 16-byte alphabet B16 up to 5 (6) bytes for the legal control bytes; maximal headers; the complete single-edit neighbourhood N1 (substitution, deletion, insertion, every 16-bit window rewritten as a length, remaining length rewritten to 0..rem+2 and the width boundaries; raw and re-framed) of every U_small frame; splices; legal non-canonical spellings; the malformation catalogue; the reference encodings of the value universes (U_val, U_size, U_field, U_thresh); the targeted text universe (every text-bearing field of every packet type, and every pair of them, filled with - thorough tier: all byte strings <= 3 over a 16-byte alphabet, defective strings of 4..129 bytes; both tiers: - strings of 250..1027 bytes made of 1-, 2-, 3- and 4-byte characters at every alignment, clean and with a wildcard / NUL / invalid byte in front or at the end). Entry points: Packet::decode, Header::decode, decode_async, Header::decode_async, PollPacket (always-ready; 1- and 2-byte reads with the future kept / re-created; end of stream mid-way); additionally every public per-body and per-property-set decoder (Connect::decode_async … AuthProperties::decode_async, decode_with_protocol with all three protocols, LastWill, Protocol, decode_raw_header) called directly on all strings <= 2 bytes, B16^3 and the bodies of all small frames with every byte substituted over B16 and every truncation, for six remaining-length arguments. Monitors: panic (incl. overflow checks and debug_assert in the checked profile), pending-without-cause, call budget, init coverage of the returned body buffer by address ranges, type-invariant walker on returned packets, and on returned ERROR values: every text they carry is well-formed UTF-8 and they format without panicking. Non-trivial = inputs that get past header validation");
+    ctx.set_rule("all byte strings <= 3 (thorough 4) bytes; all complete frames with remaining length <= 2 (3) and all bodies over the 16-byte alphabet B16 up to 5 (6) bytes for the legal control bytes; maximal headers; the complete single-edit neighbourhood N1 (substitution, deletion, insertion, every 16-bit window rewritten as a length, remaining length rewritten to 0..rem+2 and the width boundaries; raw and re-framed) of every U_small frame; splices; legal non-canonical spellings; the malformation catalogue; the reference encodings of the value universes (U_val, U_size, U_field, U_thresh); every prefix of every CONNECT of the OTHER protocol family (U_small); the targeted text universe (every text-bearing field of every packet type, and every pair of them, filled with - thorough tier: all byte strings <= 3 over a 16-byte alphabet, defective strings of 4..129 bytes; both tiers: - strings of 250..1027 bytes made of 1-, 2-, 3- and 4-byte characters at every alignment, clean and with a wildcard / NUL / invalid byte in front or at the end). Entry points: Packet::decode, Header::decode, decode_async, Header::decode_async, PollPacket (always-ready; 1- and 2-byte reads with the future kept / re-created; end of stream mid-way); additionally every public per-body and per-property-set decoder (Connect::decode_async … AuthProperties::decode_async, decode_with_protocol with all three protocols, LastWill, Protocol, decode_raw_header) called directly on all strings <= 2 bytes, B16^3 and the bodies of all small frames with every byte substituted over B16 and every truncation, for six remaining-length arguments. Monitors: panic (incl. overflow checks and debug_assert in the checked profile), pending-without-cause, call budget, init coverage of the returned body buffer by address ranges, type-invariant walker on returned packets, and on returned ERROR values: every text they carry is well-formed UTF-8 and they format without panicking. Non-trivial = inputs that get past header validation");
     fn fam<F: Fam>(ctx: &Ctx) {
         let sw = Sweep { ctx, nontrivial: AtomicU64::new(0), accepted: AtomicU64::new(0) };
         all_byte_universes2::<F>(ctx, &|b| c03_light::<F>(ctx, &sw, b), &|b| c03_heavy::<F>(ctx, b), &|b| c03_heavy_opt::<F>(ctx, b, ctx.thorough()), true);
@@ -576,7 +590,7 @@ pub fn c06_input<F: Fam>(ctx: &Ctx, sw: &Sweep, b: &[u8]) {
 }
 
 pub fn c06(ctx: &Ctx) {
-    ctx.set_rule("the byte universes of C03 (including the reference encodings of the value universes U_val, U_size, U_field, U_thresh) plus frame ++ suffix (all 256 one-byte and B16^2 suffixes) and all 2^16 (control byte, length byte) bare headers: (a) poll accepts => blocking and async return the same packet; (b) poll rejects with an error other than InvalidRemainingLength => the same error from both; (c) for every input blocking = async with end-of-input mapped to incomplete, for Packet and for Header. (a)/(b) apply to inputs that start with a complete frame (decided by the reference header reader). Non-trivial = complete frames that get past header validation");
+    ctx.set_rule("the byte universes of C03 (including the reference encodings of the value universes U_val, U_size, U_field, U_thresh, and every prefix of every CONNECT of the other protocol family) plus frame ++ suffix (all 256 one-byte and B16^2 suffixes) and all 2^16 (control byte, length byte) bare headers: (a) poll accepts => blocking and async return the same packet; (b) poll rejects with an error other than InvalidRemainingLength => the same error from both; (c) for every input blocking = async with end-of-input mapped to incomplete, for Packet and for Header. (a)/(b) apply to inputs that start with a complete frame (decided by the reference header reader). Non-trivial = complete frames that get past header validation");
     fn fam<F: Fam>(ctx: &Ctx) {
         let sw = Sweep { ctx, nontrivial: AtomicU64::new(0), accepted: AtomicU64::new(0) };
         all_byte_universes::<F>(ctx, &|b| c06_input::<F>(ctx, &sw, b), &|_| {}, true);
@@ -933,6 +947,20 @@ pub fn targeted_text_frames<F: Fam>(ctx: &Ctx, long_only: bool) -> Vec<Vec<u8>> 
                     continue;
                 }
                 pair_sites += 1;
+                // equal content in both fields: text that is legal for one kind of field and illegal for another
+                // (wildcards / NUL / share shapes / ill-formed UTF-8) - a validation skipped because "the same
+                // string was checked already"
+                if i < j {
+                    for t in [&b"a/#"[..], &b"+"[..], &b"a\0b"[..], &b"$share/g/a"[..], &b"$share/g/"[..], &b"#"[..], &[0xC3u8][..], &[0xFFu8][..], "é".as_bytes(), &b""[..]] {
+                        let n1 = Node::tag(strs[i].1, Node::Len16(Box::new(Node::raw(t))));
+                        let n2 = Node::tag(strs[j].1, Node::Len16(Box::new(Node::raw(t))));
+                        let body = mutate::replace(&mutate::replace(&f.body, &strs[i].0, n1), &strs[j].0, n2);
+                        let g = mqtt_ref::enc::Frame { control: f.control, rl_pad: 0, rl_raw: None, body };
+                        if let Some(b) = g.bytes() {
+                            frames.push(b);
+                        }
+                    }
+                }
                 for (l, r) in &splits {
                     let n1 = Node::tag(strs[i].1, Node::Len16(Box::new(Node::raw(l))));
                     let n2 = Node::tag(strs[j].1, Node::Len16(Box::new(Node::raw(r))));
@@ -973,7 +1001,7 @@ fn c12_targeted<F: Fam>(ctx: &Ctx, sw: &Sweep) -> u64 {
 }
 
 pub fn c12(ctx: &Ctx) {
-    ctx.set_rule("the invariant walker (every text field valid UTF-8 byte-wise, TopicName/TopicFilter pass the library's own predicates and the reference predicates, shared accessors equal the textual split and do not panic, Pid != 0, VarByteInt < 2^28, UTF-8-flagged payloads valid) on every packet any front-end returns over the byte universes of C03 (including the reference encodings of the value universes U_val, U_size, U_field, U_thresh), plus a targeted universe: for each text-bearing field of each packet type, all byte strings <= 2 (thorough 3) over a 16-byte alphabet of ASCII / wildcard / UTF-8 lead, continuation, surrogate and invalid bytes, and longer strings (4..129 bytes) with one bad unit at every position; strings of 250..1027 bytes of 1- to 4-byte characters at every alignment, clean and defective; for every pair of text fields of a full packet of every type, a multi-byte character split between the two fields at every byte position (each field ill-formed, the concatenation well-formed); packet identifiers 0/1/FFFF; subscription identifiers around 2^28 in 4- and 5-byte spellings; UTF-8-flagged payloads. Non-trivial = accepted inputs");
+    ctx.set_rule("the invariant walker (every text field valid UTF-8 byte-wise, TopicName/TopicFilter pass the library's own predicates and the reference predicates, shared accessors equal the textual split and do not panic, Pid != 0, VarByteInt < 2^28, UTF-8-flagged payloads valid) on every packet any front-end returns over the byte universes of C03 (including the reference encodings of the value universes U_val, U_size, U_field, U_thresh), plus a targeted universe: for each text-bearing field of each packet type, all byte strings <= 2 (thorough 3) over a 16-byte alphabet of ASCII / wildcard / UTF-8 lead, continuation, surrogate and invalid bytes, and longer strings (4..129 bytes) with one bad unit at every position; strings of 250..1027 bytes of 1- to 4-byte characters at every alignment, clean and defective; for every pair of text fields of a full packet of every type, a multi-byte character split between the two fields at every byte position (each field ill-formed, the concatenation well-formed), and the same text - wildcards, NUL, share shapes, ill-formed UTF-8 - in both fields of the pair; packet identifiers 0/1/FFFF; subscription identifiers around 2^28 in 4- and 5-byte spellings; UTF-8-flagged payloads. Non-trivial = accepted inputs");
     fn fam<F: Fam>(ctx: &Ctx) {
         let sw = Sweep { ctx, nontrivial: AtomicU64::new(0), accepted: AtomicU64::new(0) };
         let n = c12_targeted::<F>(ctx, &sw);
